@@ -17,6 +17,7 @@
 -/
 import CijProofs.Lemmas.Tasks
 import CijProofs.Lemmas.TasksSource
+import CijProofs.Lemmas.TasksGlueSource
 import CijProofs.Lemmas.Isotropic
 import CijProofs.Lemmas.Permutation
 import CijProofs.Lemmas.Degenerate
@@ -631,6 +632,181 @@ theorem tasks_model_is_source {α : Type} [Add α] [Div α] (strain : SField α)
 
 /-- non-vacuity: for `c12` the columns are 0 and 1 -/
 example : colOf (keyOfVoigt (1, 2)) ("i", 1) = 0 ∧ colOf (keyOfVoigt (1, 2)) ("k", 1) = 1 := by decide
+
+/-! #### the glue of `tasks.py` is the source's
+
+  `tools/gens/tasks_src.py` translates every method of the four classes of `cij/core/tasks.py` on every run
+  (`Generated/TasksGlue.lean`): `resolve` as a work-list program, `get_dependencies` as (strain attribute, key-list method) pairs,
+  `calculate` / `get_modulus_*` / `get_results_by_strain_keys` / `__getitem__` / `__setitem__` / `get_*_results` as wiring,
+  `__eq__` as a decision list, `__hash__` as an expression tree, the class dispatch of `PhononContributionTask.__init__`, and the
+  inventory of methods and of everything that could outlive a task list.  `CijModel/TasksGlue.lean` interprets these descriptions
+  (generic in the description: another pop end, edge orientation, operand order, store name, strain attribute … means something
+  else).  The theorems below say that what the file says NOW means the model every other C04 theorem is about. -/
+
+section glue
+open Cij.TasksGlue Generated.TasksGlue
+
+/-- **`resolve`**: the translated work-list program — queue `list(product([strain], keys, [None]))`, `pop()` from the END, lookup
+`next((t for t in tasks if t.task_params == task_params), None)` by the equality RELATION alone (whatever relation: `peq` is
+arbitrary, and no hash is consulted), `curr = len(tasks) - 1` / `tasks.index(task)`, `add_edge(curr, dep)` (dependency →
+dependant) when `dep is not None`, dependencies appended with `curr` — run with the translated `get_dependencies`, is the model's
+loop for every fuel, and with the model's fuel it is `Tasks.resolve`. -/
+theorem c04_glue_is_source_resolve {α : Type} [Add α] [Sub α] [Mul α] [Div α] [NatCast α]
+    (isZero : α → Bool) (peq : Params α → Params α → Bool) (eig : Eig α) (strain : SField α) (keys : List Modulus) :
+    (∀ fuel, runResolve workList peq (depsOfSpec depsSpec isZero eig) fuel strain keys =
+      resolveLoop isZero peq eig fuel (initialStack strain keys) ⟨[], []⟩) ∧
+    runResolve workList peq (depsOfSpec depsSpec isZero eig) (fuelFor isZero eig keys) strain keys =
+      resolve isZero peq eig strain keys :=
+  ⟨fun fuel => runResolve_gen isZero peq eig fuel strain keys, runResolve_gen isZero peq eig _ strain keys⟩
+
+/-- **`get_dependencies`**: the translated pairs mean the model's dependency function — nothing for a non-shear task; for a shear
+task the ORIGINAL-frame strain with `get_modulus_keys()` followed by the ROTATED strain with `get_modulus_keys_rotated()` -/
+theorem c04_glue_is_source_deps {α : Type} [Add α] [Sub α] [Mul α] [Div α] [NatCast α]
+    (isZero : α → Bool) (eig : Eig α) (t : PTask α) :
+    depsOfSpec depsSpec isZero eig t = deps isZero eig t ∧
+    (t.key.calcType = .shear → depsOfSpec depsSpec isZero eig t =
+      (modulusKeys (α := α) isZero t.key).map (fun k => (t.strain, k)) ++
+      (modulusKeysRotated isZero (eig t.key).2).map (fun k => (rotatedField (eig t.key).1 t.strain, k))) ∧
+    (t.key.calcType ≠ .shear → depsOfSpec depsSpec isZero eig t = []) := by
+  refine ⟨deps_gen isZero eig t, fun h => ?_, fun h => ?_⟩
+  · rw [deps_gen]; unfold deps; rw [h]
+  · rw [deps_gen]; unfold deps
+    cases hc : t.key.calcType <;> simp_all
+
+/-- **`calculate`**: the translated loop — tasks in the order of `self.data`; for a shear task two FRESH dictionaries, one per frame,
+both read from the ISOTHERMAL store (`modulus_results` ← original strain and keys, `modulus_results_rotated` ← rotated strain
+and keys), handed by `get_modulus_*` to `calculator.modulus` / `calculator.modulus_rotated`, which are the two dictionaries the
+shear class reads; then BOTH stores written for every task — is `Tasks.calculate`, for every order, relation and store content. -/
+theorem c04_glue_is_source_calculate (isZero : R → Bool) (peq : Params R → Params R → Bool) (eig : Eig R)
+    (baseIso baseAdi : Params R → R) (tasks : List (PTask R)) (order : List Nat) (st : Store R × Store R) :
+    calculateSpec calcSpec getModulus resultsSpec getitemSearch shearIface isZero peq eig baseIso baseAdi tasks order st =
+      calculate isZero peq eig baseIso baseAdi tasks order st :=
+  calculate_gen isZero peq eig baseIso baseAdi tasks order st
+
+/-- **result stores**: `__getitem__` is a linear search returning the FIRST entry equal to the query under the relation (no hash
+shortcut; later entries never shadow it; what was just stored is found); tuple keys are normalised by `create(strain, key)`;
+`get_results_by_strain_keys` is one `create` + one lookup per key into a fresh dictionary; `get_isothermal_results` /
+`get_adiabatic_results` read their own store with the `self.strain`, `self.keys` of `resolve`. -/
+theorem c04_glue_is_source_stores {α : Type} [Add α] [Sub α] [Mul α] [Div α] [NatCast α]
+    (peq : Params α → Params α → Bool) (st : Store α × Store α) (strain : SField α) (keys : List Modulus) (key : Modulus) :
+    (∀ s p, getItemOf getitemSearch peq s p = Store.get peq s p) ∧
+    (∀ s extra q v, Store.get peq s q = some v → Store.get peq (s ++ extra) q = some v) ∧
+    (∀ s p q v, Store.get peq s q = none → peq p q = true → Store.get peq (s ++ [(p, v)]) q = some v) ∧
+    normKey setitemNorm strain key = some (create strain key) ∧ normKey getitemNorm strain key = some (create strain key) ∧
+    (∀ s, resultsOf resultsSpec (getItemOf getitemSearch peq s) strain keys = Store.results peq s strain keys) ∧
+    getResultsOf resultGetters resultsSpec getitemSearch peq st strain keys "get_isothermal_results" = st.1.results peq strain keys ∧
+    getResultsOf resultGetters resultsSpec getitemSearch peq st strain keys "get_adiabatic_results" = st.2.results peq strain keys :=
+  ⟨fun s p => getItem_gen peq s p, fun s extra q v h => store_get_append_of_some peq s extra q v h,
+    fun s p q v h1 h2 => store_get_append_new peq s p q v h1 h2, (normKey_gen strain key).1, (normKey_gen strain key).2,
+    fun s => store_results_gen peq s strain keys, (getResults_gen peq st strain keys).1, (getResults_gen peq st strain keys).2⟩
+
+/-- `self.strain` / `self.keys` are the two parameters of `resolve`, bound before the loop that rebinds the local `strain`; the getters
+read them; `self.data` (what `calculate` iterates) is `[tasks[i] for i in nx.topological_sort(graph)]`; the stores are keyed by
+`task.task_params`; `__setitem__` is the plain `dict` assignment of the normalised key -/
+theorem c04_glue_is_source_wiring : SelfBindingsOk := by decide
+
+/-- **per-list stores**: the two result stores are two constructor calls in `PhononContributionTaskList.__init__`; no class-level
+binding (besides the two NamedTuple fields), no mutable default argument, no `global`, no module-level container -/
+theorem c04_glue_stores_per_list : StoresPerList := by decide
+
+/-- **class dispatch**: `is_longitudinal` / `is_off_diagonal` / `is_shear` choose the three contribution classes, and each argument
+list — `(calculator, self.params)` for the non-shear classes, `(*self.params, calculator)` = `(strain, key, calculator)` for the shear
+class — is positionally the parameter list of the constructor that runs (read from nonshear.py / shear.py on this run); the shear
+class keeps its first two arguments as `self.strain`, `self.key` -/
+theorem c04_glue_is_source_dispatch : DispatchOk := by decide
+
+/-- **inventory**: every `def` of the four classes is translated (here or, for `create` / `_make_param_by_strain_key`, in
+Generated/TasksSpec.lean with the normalised text compared); no nested function; `PhononContributionTask` defines neither `__eq__` nor
+`__hash__`, so `tasks.index(task)` finds the object itself -/
+theorem c04_glue_methods_complete : MethodsComplete := by decide
+
+/-- **`__eq__`**: the translated decision list is `peqModel` (same calc type; shear: same key and close strain fields; non-shear: close
+parameter arrays — self first, tolerance `rtol = _STRAIN_RTOL ≤ 1e-9`, `atol = 0`) for every closeness test; and `peqModel` meets
+`PeqSpec` (what all theorems above assume of the relation) whenever that test is an equivalence -/
+theorem c04_glue_is_source_eq (close : List R → List R → Bool) :
+    (∀ p q : Params R, p.Proper → q.Proper → peqOfSpec eqSpec close p q = peqModel close p q) ∧
+    (∀ (s : SField R) (k : Modulus), (create s k).Proper) ∧
+    (CloseEquiv close → PeqSpec (peqModel close)) ∧
+    eqSpec.rtol = Generated.strainRtol ∧ eqSpec.atol.1 = 0 :=
+  ⟨fun p q hp hq => peqOfSpec_gen close p q hp hq, fun s k => proper_create s k, peqModel_spec close, by decide, by decide⟩
+
+/-- **`__hash__`**: the translated trees are `hash(calc_type) ^ hash(floats of params[0]) ^ hash(floats of params[1])` (non-shear) and
+`… ^ hash(key)` (shear), for any hash functions and any `^`.  CONSISTENT with `__eq__` where `dict` storage needs it: equal parameters
+with IDENTICAL arrays have equal hashes (so a result stored under a task's own parameters is found again). -/
+theorem c04_glue_is_source_hash {H : Type} (hc : Modulus.CalcType → H) (hf : List R → H) (hk : Modulus → H) (x : H → H → H)
+    (close : List R → List R → Bool) :
+    (∀ c a b, c ≠ .shear → hashOf hashSpec hc hf hk x (.nonshear c a b) = some (x (x (hc c) (hf a)) (hf b))) ∧
+    (∀ s k, hashOf hashSpec hc hf hk x (.shear s k) = some (x (x (hc .shear) (hf (flat s))) (hk k))) ∧
+    (∀ p q : Params R, p.Proper → q.Proper → peqModel close p q = true → (∀ i, p.array i = q.array i) →
+      hashOf hashSpec hc hf hk x p = hashOf hashSpec hc hf hk x q ∧ (hashOf hashSpec hc hf hk x p).isSome = true) :=
+  ⟨fun c a b h => hashOf_nonshear hc hf hk x c h a b, fun s k => hashOf_shear hc hf hk x s k,
+    fun p q hp hq he ha => hash_consistent hc hf hk x close p q hp hq he ha⟩
+
+/-- ALL longitudinal tasks (c11, c22, c33 and every rotated-frame c_i′i′, whatever their strain) have the SAME hash: both parameters are
+the same array, and `h ^ x ^ x = h`.  `__eq__` therefore must not (and, by `c04_glue_is_source_eq`, does not) consult the hash. -/
+theorem c04_glue_longitudinal_hashes_coincide {H : Type} (hc : Modulus.CalcType → H) (hf : List R → H) (hk : Modulus → H)
+    (x : H → H → H) (hx : ∀ u v, x (x u v) v = u) (s s' : SField R) (k k' : Modulus) (hk1 : k ∈ allKeys) (hk2 : k' ∈ allKeys)
+    (hl : k.calcType = .longitudinal) (hl' : k'.calcType = .longitudinal) :
+    hashOf hashSpec hc hf hk x (create s k) = hashOf hashSpec hc hf hk x (create s' k') := by
+  rw [hash_longitudinal hc hf hk x hx s k hk1 hl, hash_longitudinal hc hf hk x hx s' k' hk2 hl']
+
+/-- … while `__eq__`-equal parameters that are NOT bit-identical can hash differently: over ℚ with `numpy.allclose`'s formula at the
+translated tolerances, the off-diagonal parameters `([1], [1/2])` and `([1 + 1e-13], [1/2])` are equal in both directions and get
+different hashes from a hash that tells the tuple `(1,)` from other tuples.  Python's `dict` then keeps two entries for them and
+`__getitem__` returns the first (`c04_glue_is_source_stores`); harmless: `calculate` stores every task once, tasks of one list are
+pairwise unequal, and equal parameters have equal values (`PeqCongr`). -/
+theorem c04_glue_eq_not_hash_compatible :
+    let close := closeQ (ratOf eqSpec.rtol) (ratOf eqSpec.atol)
+    let p : Params Rat := .nonshear .offDiagonal [1] [1 / 2]
+    let q : Params Rat := .nonshear .offDiagonal [1 + 1 / 10000000000000] [1 / 2]
+    peqOfSpec eqSpec close p q = true ∧ peqOfSpec eqSpec close q p = true ∧
+    hashOf hashSpec (fun _ => 0) hfEx (fun _ => 0) Nat.xor p ≠ hashOf hashSpec (fun _ => 0) hfEx (fun _ => 0) Nat.xor q := by
+  decide +kernel
+
+/-- **end to end on the translated pipeline**: for ANY request list of canonical keys, the translated `resolve` terminates, and for ANY
+valid evaluation order the translated `calculate` succeeds and the translated `get_isothermal_results` / `get_adiabatic_results`
+return, for every requested key, `spec (create strain key)` — independent of the request list and of the order. -/
+theorem c04_glue_request_independent (isZero : R → Bool) (hz : ZeroSpec isZero) (peq : Params R → Params R → Bool)
+    (hp : PeqSpec peq) (eig : Eig R) (baseIso baseAdi : Params R → R) (hc : PeqCongr peq baseIso baseAdi)
+    (strain : SField R) (keys : List Modulus) (hkeys : ∀ k ∈ keys, k ∈ allKeys) :
+    ∃ st, runResolve workList peq (depsOfSpec depsSpec isZero eig) (fuelFor isZero eig keys) strain keys = some st ∧
+      ∀ order, validOrder st.tasks.length st.edges order = true →
+        ∃ stores, calculateSpec calcSpec getModulus resultsSpec getitemSearch shearIface isZero peq eig baseIso baseAdi
+            st.tasks order ([], []) = some stores ∧
+          getResultsOf resultGetters resultsSpec getitemSearch peq stores strain keys "get_isothermal_results" =
+            some (keys.map fun k => (k, spec isZero eig baseIso 2 (create strain k))) ∧
+          getResultsOf resultGetters resultsSpec getitemSearch peq stores strain keys "get_adiabatic_results" =
+            some (keys.map fun k => (k, specAdi isZero eig baseIso baseAdi (create strain k))) := by
+  obtain ⟨st, hst, h⟩ := c04_request_independent isZero hz peq hp eig baseIso baseAdi hc strain keys hkeys
+  refine ⟨st, by rw [runResolve_gen]; exact hst, fun order ho => ?_⟩
+  obtain ⟨iso, adi, hcalc, hi, ha⟩ := h order ho
+  refine ⟨(iso, adi), by rw [calculate_gen]; exact hcalc, ?_, ?_⟩
+  · rw [(getResults_gen peq (iso, adi) strain keys).1]; exact hi
+  · rw [(getResults_gen peq (iso, adi) strain keys).2]; exact ha
+
+/-- non-vacuity: exact equality of lists is a `CloseEquiv`; the translated `__eq__` at ℚ with it identifies a task with itself and
+separates c11 from c22 at strain (1, 2, 3) although their hashes coincide -/
+example : CloseEquiv (fun a b : List Rat => decide (a = b)) ∧
+    (let s : SField Rat := [fun i => ![1, 2, 3] i]
+     let close := fun a b : List Rat => decide (a = b)
+     peqOfSpec eqSpec close (create s (keyOfVoigt (1, 1))) (create s (keyOfVoigt (1, 1))) = true ∧
+     peqOfSpec eqSpec close (create s (keyOfVoigt (1, 1))) (create s (keyOfVoigt (2, 2))) = false ∧
+     hashOf hashSpec (fun _ => 7) hfEx (fun _ => 0) Nat.xor (create s (keyOfVoigt (1, 1))) =
+       hashOf hashSpec (fun _ => 7) hfEx (fun _ => 0) Nat.xor (create s (keyOfVoigt (2, 2)))) := by
+  refine ⟨⟨fun a => by simp, fun a b h => by simpa [eq_comm] using h, fun a b c h1 h2 => by simp_all⟩, ?_⟩
+  decide +kernel
+
+/-- non-vacuity: the translated program run over ℚ on the request [c44, c11] of the example above gives the same tasks and edges -/
+example :
+    let peq : Params Rat → Params Rat → Bool := peqModel fun a b => decide (a = b)
+    let eig : Eig Rat := fun _ => (fun i a => if i = a then 1 else 0, fun a => ![-1, 0, 1] a)
+    let isZero : Rat → Bool := fun x => decide (x = 0)
+    let r := runResolve workList peq (depsOfSpec depsSpec isZero eig) 20 [fun i => ![1, 2, 3] i] [keyOfVoigt (4, 4), keyOfVoigt (1, 1)]
+    (r.map fun st => (st.tasks.map (·.key.voigt), st.edges)) =
+      some ([some (1, 1), some (4, 4), some (3, 3), some (1, 3)], [(2, 1), (3, 1), (3, 1), (0, 1)]) := by
+  decide +kernel
+
+end glue
 
 /-! #### ties shared with other properties
 
